@@ -16,7 +16,7 @@ CFG = {
                   "from the concatenation (c10_read_agrees: same data or same error at the Read level; c10_readerx_agrees: same "
                   "values, errors at the same reads, same bytes left). case_sound is a theorem through model_holds-style lemmas "
                   "(round_sound, trunc_sound, rewrite_sound, hist_sound, stream_sound); a refused write is the identity on the buffer (c10_failed_write_identity) and the accepted writes around it still read back (c10_roundtrip_with_refused). The model is tied to the code on every run "
-                  "by seven kinds of experiment on the real package (typed programs with all / sampled truncation points, random "
+                  "by eight kinds of experiment on the real package (typed programs with all / sampled truncation points, random "
                   "histories incl. mismatched reads and rewrites, crafted and arbitrary decoder input, rewrites on a partly consumed "
                   "buffer, ReaderX over one-byte / random / empty-chunk / all-at-once sources against BufferX), each outcome "
                   "compared inside Coq with the model (values, error class, bytes left). Proof is the right level: the quantifiers "
@@ -45,13 +45,18 @@ CFG = {
             "131073, 196608, 262144 bytes - 1<<20 in the thorough tier - between small fields, over several reader types and chunk sizes; the "
             "case term carries no large literal: the source is a list of segments, the big ones expanded in Coq and in Go by the same "
             "two-counter byte generator gen_bytes, and every observed byte string is compared NOT byte for byte but through a digest "
-            "computed on both sides: length, first and last eight bytes, sum of the bytes, sum of the prefix sums). Non-trivial: round = at least one write; trunc = cut < total; hist/rewrite = always; arbitrary bytes = non-empty "
+            "computed on both sides: length, first and last eight bytes, sum of the bytes, sum of the prefix sums). Private instances in parallel (class parallel, judged as CLarge cases): 8 goroutines released together by a "
+            "spin barrier, each with its own bytes (recognisable generator parameters per goroutine, strings / blocks from a few bytes to "
+            "70 KiB between fields of every fixed-width type), its own BufferX and its own ReaderX over its own source, decode their stream "
+            "120 times (400 in the thorough tier); the first observation of each goroutine and every observation that differs from it (at "
+            "most 3 more per goroutine; the comparison in Go only selects what is emitted) are judged in Coq against the model's decode of "
+            "that goroutine's own bytes - the only admissible outcome under every schedule, since the instances share nothing. Non-trivial: round = at least one write; trunc = cut < total; hist/rewrite = always; arbitrary bytes = non-empty "
             "input; hold = at least one kept value; stream = non-empty input and at least one read; large = always. distinct = distinct Coq case term.",
     "trusted": ["Go harness cmd/c10: chunkSrc (the fragmenting io.Reader: one chunk per Read, empty chunks = (0,nil), optional EOF with the last data), "
                 "the reader types wrapped around it (bufio, bytes, strings, io.LimitedReader, testing/iotest; the model is the same for all: an io.Reader delivering these bytes), "
                 "recover wrappers, error-to-enum mapping (errors.Is on io.EOF, io.ErrUnexpectedEOF, bytex.Err*; the text 'varint overflows' for binary's unexported error)",
                 "announced string lengths above 8192 are not passed to ReaderX.ReadString (it allocates the announced length): such reads are replaced by ReadU32 in the stream class; BufferX sees them unrestricted"],
-    "assumptions": ["BufferX / ReaderX are used by one goroutine at a time (the property is sequential; neither type has a lock)",
+    "assumptions": ["one BufferX / ReaderX instance is used by one goroutine at a time (neither type has a lock); DIFFERENT instances over different bytes may be used by different goroutines at the same time and must not influence each other (no package-level state): exercised by the parallel class on every run, not proved",
                     "int is 64 bits (int(uint32) is non-negative), as on the amd64 platform the check runs on",
                     "math.Float64frombits / Float64bits are inverse bit casts that preserve NaN payloads",
                     "values are immutable in the model; that a returned Go string / copied slice really is (no aliasing of the buffer) is observed by the hold-results experiments, not proved"],
